@@ -101,11 +101,12 @@ func recordsScenario(s *Sim, params map[string]string) {
 		// message sets, which cannot represent header-only batches or headers
 		ms = [][]int8{{1}, {0}, {0, 1}}[t.Intn("cfg", 3)]
 	}
+	logAppend, farFuture := t.Intn("attrs", 3) == 0, t.Intn("attrs", 3) == 0
 	relGaps := t.Intn("cfg", 3) == 0 // v1 wrappers whose relative inner offsets have compaction gaps
 	for pi := int32(0); pi < 3; pi++ {
 		p := cl.Part(topic, pi)
 		// (header-only batches and batches without their tail: what log compaction leaves behind)
-		o := LayoutOpts{Magics: ms, Codecs: allCodecs, Holes: true, EmptyBatch: true, MissingTail: true, Headers: true, Stream: "layout"}
+		o := LayoutOpts{Magics: ms, Codecs: allCodecs, Holes: true, EmptyBatch: true, MissingTail: true, Headers: true, Stream: "layout", LogAppend: logAppend, FarFuture: farFuture}
 		p.LogStart = int64(t.Intn("layout", 50))
 		p.LEO = p.LogStart
 		ts := int64(1600000000000)
